@@ -95,6 +95,35 @@ theorem stage_success (sr : Bool) (nf : Nat) (D : Int) (atts : List Att) (n : Na
 theorem hang_is_failure (D : Int) (a : Att) (h : a.out = .hang) : ret D a = (.ctxErr, D) := by
   unfold ret; simp [h]
 
+/-- **request_timeout_retried**: requests that run into the integration's own per-request timeout
+    (or are answered 5xx) while the flush deadline is still ahead are recoverable failures: every
+    one of them is followed by another attempt, the stage ends only with the flush context. -/
+theorem request_timeout_retried (D timeout : Int) (reqs : List (Int × Http)) (i : Nat) (seen : Bool)
+    (ht : 0 ≤ timeout)
+    (h : ∀ r ∈ reqs, (r.2 = .timeout ∨ ∃ c, r.2 = .status c ∧ c / 100 = 5) ∧ r.1 + timeout < D) :
+    exec D (reqs.map fun r => httpAtt timeout r.1 r.2) i seen = .deadline (i + reqs.length) (seen || !reqs.isEmpty) := by
+  have := recoverable_retried_until_deadline D (reqs.map fun r => httpAtt timeout r.1 r.2) i seen (by
+    intro a ha
+    obtain ⟨r, hr, rfl⟩ := List.mem_map.mp ha
+    obtain ⟨hk, hd⟩ := h r hr
+    rcases hk with hk | ⟨c, hk, h5⟩
+    · have hnd : ¬ D ≤ r.1 + timeout := by omega
+      refine ⟨by simp [httpAtt]; omega, ?_⟩
+      simp [ret, httpAtt, hk, httpOutcome, hnd]
+    · have hnd : ¬ D ≤ r.1 := by omega
+      refine ⟨by simp [httpAtt]; omega, ?_⟩
+      simp [ret, httpAtt, hk, httpOutcome, h5, hnd])
+  simpa using this
+
+/-- a 4xx answer ends the loop at once, a 2xx answer is the success -/
+theorem http_status_classes (c : Nat) :
+    (c / 100 = 2 → httpOutcome (.status c) = .ok) ∧
+    (c / 100 = 5 → httpOutcome (.status c) = .recoverable) ∧
+    (c / 100 ≠ 2 → c / 100 ≠ 5 → httpOutcome (.status c) = .unrecoverable) := by
+  exact ⟨fun h => by simp [httpOutcome, h], fun h => by simp [httpOutcome, h], fun h2 h5 => by simp [httpOutcome, h2, h5]⟩
+
+example : exec 20000 ((([(0, .timeout), (600, .status 503)] : List (Int × Http))).map fun r => httpAtt 50 r.1 r.2) 0 false = .deadline 2 true := by decide
+
 example : exec 100 [⟨0, .recoverable, 5⟩, ⟨10, .hang, 0⟩, ⟨120, .ok, 1⟩] 0 false = .deadline 2 true := by decide
 example : okTimes 100000000000 0 [⟨0, .recoverable, 5⟩, ⟨400000000, .ok, 1⟩] = true := by decide
 
